@@ -1,0 +1,47 @@
+//go:build verif
+
+package routetable
+
+// Verification hook (C17): read-only snapshot of the unexported RouteTable state.
+// Compiled only with -tags verif.
+
+type VerifRoute struct {
+	CIDR     string
+	Ifindex  int
+	GW       string
+	Src      string
+	Proto    int
+	Type     int
+	Scope    int
+	OnLink   bool
+	MTU      int
+	NextHops int
+}
+
+type VerifState struct {
+	Desired, Dataplane []VerifRoute
+	Rescan             []string
+	FullResync         bool
+}
+
+func verifRoute(k RouteKey, v kernelRoute) VerifRoute {
+	r := VerifRoute{CIDR: k.CIDR.String(), Ifindex: v.Ifindex, Proto: int(v.Protocol), Type: v.Type, Scope: int(v.Scope),
+		OnLink: v.OnLink, MTU: v.MTU, NextHops: len(v.NextHops)}
+	if v.GW != nil {
+		r.GW = v.GW.String()
+	}
+	if v.Src != nil {
+		r.Src = v.Src.String()
+	}
+	return r
+}
+
+func (r *RouteTable) VerifState() VerifState {
+	st := VerifState{FullResync: r.fullResyncNeeded}
+	r.kernelRoutes.Desired().Iter(func(k RouteKey, v kernelRoute) { st.Desired = append(st.Desired, verifRoute(k, v)) })
+	r.kernelRoutes.Dataplane().Iter(func(k RouteKey, v kernelRoute) { st.Dataplane = append(st.Dataplane, verifRoute(k, v)) })
+	for n := range r.ifacesToRescan.All() {
+		st.Rescan = append(st.Rescan, n)
+	}
+	return st
+}
